@@ -247,8 +247,9 @@ func (g *Gen) randBatch(name string, cfg batchCfg) *BatchSpec {
 					for k := 0; k < na; k++ {
 						f.AP = append(f.AP, uint64(g.r.Intn(7)))
 					}
-					if g.chance(0.1) {
-						f.AP[0] = []uint64{127, 128, 129, 16384}[g.r.Intn(4)]
+					if g.chance(0.15) {
+						// varint boundaries, values beyond 32 and 35 bits, the largest ones
+						f.AP[0] = []uint64{127, 128, 129, 16384, 1<<32 - 1, 1 << 32, 1<<35 - 1, 1 << 35, 1 << 62, 1 << 63, ^uint64(0)}[g.r.Intn(11)]
 					}
 				}
 			}
@@ -603,6 +604,11 @@ func (g *Gen) genC01(n int) error {
 			g.st("case")
 			continue
 		}
+		if i == 3 || i == 203 {
+			g.shrinkingBuildsCase()
+			g.st("case")
+			continue
+		}
 		b := g.randBatch(g.fresh("b"), cfg)
 		g.emitBatch(b)
 		if g.chance(0.1) {
@@ -615,6 +621,53 @@ func (g *Gen) genC01(n int) error {
 		g.st("case")
 	}
 	return nil
+}
+
+// shrinkingBuildsCase: builds of 600, then 400, then 30, then 600 documents on one plugin (one
+// pooled builder); after EVERY build all segments built so far are read again - terms, hits with
+// locations in the middle and at the end, stored fields, ids.  A built segment owns its bytes.
+func (g *Gen) shrinkingBuildsCase() {
+	g.curMode = 1026
+	g.emit("cfg chunkmode=1026")
+	type built struct {
+		seg string
+		nd  int
+		bn  string
+	}
+	var all []built
+	for _, nd := range []int{600, 400, 30, 600} {
+		b := &BatchSpec{Name: g.fresh("b")}
+		for d := 0; d < nd; d++ {
+			id := []byte(fmt.Sprintf("%s-%d", b.Name, d))
+			doc := DocSpec{ID: id, Plain: true}
+			doc.Fields = append(doc.Fields, FieldSpec{Kind: "fld", Name: "_id", Typ: 't', Stored: true, Len: 1, Val: id, Toks: []TokSpec{{Term: id, Freq: 1}}})
+			toks := []TokSpec{{Term: []byte(fmt.Sprintf("big%d", d%7)), Freq: 2, Locs: []LocSpec{{Pos: 1, Start: d, End: d + 2}, {Pos: 4, Start: d + 5, End: d + 9}}},
+				{Term: []byte("every"), Freq: 1 + d%3}}
+			doc.Fields = append(doc.Fields, FieldSpec{Kind: "fld", Name: "body", Typ: 't', Stored: d%50 == 0, Val: []byte(fmt.Sprintf("stored body of %d", d)), Len: 3, DV: d%9 == 0, Toks: toks})
+			b.Docs = append(b.Docs, doc)
+		}
+		g.emitBatch(b)
+		s := g.fresh("s")
+		g.emit("build %s %s", s, b.Name)
+		g.newBuilt(s, b)
+		all = append(all, built{s, nd, b.Name})
+		for _, x := range all {
+			g.emit("q count %s", x.seg)
+			g.emit("q dict %s body aut=all lo=* hi=* probe=-", x.seg)
+			g.emit("q post %s body %s ex=nil fl=111 ops=N,N,A%d,N,A%d,N,N", x.seg, hx([]byte("big0")), x.nd/2, x.nd-8)
+			g.emit("q post %s body %s ex=nil fl=111 ops=A%d,N,N,N", x.seg, hx([]byte("every")), x.nd-3)
+			g.emit("q post %s _id %s ex=nil fl=111 ops=N,N", x.seg, hx([]byte(fmt.Sprintf("%s-%d", x.bn, x.nd-1))))
+			for _, d := range []int{0, x.nd / 2, x.nd - 1} {
+				g.emit("q stored %s %d stop=*", x.seg, d)
+				g.emit("q docid %s %d", x.seg, d)
+			}
+			g.emit("q dv %s - fields=body doc=%d", x.seg, x.nd-x.nd%9-9)
+		}
+	}
+	for _, x := range all {
+		g.emit("close %s", x.seg)
+	}
+	g.st("shrinkingbuilds")
 }
 
 // rejectThenRetry: the application's field validator rejects the batch (already emitted); the batch to
@@ -1122,15 +1175,18 @@ func (g *Gen) bigMergeCase() {
 	mode := []int{1026, 1026, 1025, 1024, 3}[g.r.Intn(5)]
 	// the first two big merges of a run are the cardinality-dependent modes with deletions crossing 1024
 	nth := g.stats["bigmerge"]
-	if nth < 3 {
-		mode = []int{1026, 1026, 1025}[nth]
+	if nth < 4 {
+		mode = []int{1026, 1026, 1025, 1026}[nth]
 	}
 	g.curMode = mode
 	g.emit("cfg chunkmode=%d", mode)
 	var segs []string
 	sizes := []int{600 + g.r.Intn(200), 500 + g.r.Intn(300)}
-	if g.chance(0.3) {
+	if g.chance(0.3) && nth != 3 {
 		sizes = []int{1100 + g.r.Intn(300)}
+	}
+	if nth == 3 {
+		sizes = []int{600, 430} // exactly 1024 survivors, see below
 	}
 	for k, nd := range sizes {
 		b := &BatchSpec{Name: g.fresh("b")}
@@ -1169,7 +1225,7 @@ func (g *Gen) bigMergeCase() {
 	total := 0
 	// 1st and 3rd big merge of a run: deletions take the survivors below 1024; 2nd: few deletions, so that a
 	// term of every document stays above 1024 while its neighbour in the next field has a handful of hits
-	crossing := (g.chance(0.7) && nth != 1) || nth == 0 || nth == 2
+	crossing := ((g.chance(0.7) && nth != 1) || nth == 0 || nth == 2) && nth != 3
 	fewDrops := nth == 1
 	for _, s := range segs {
 		nd := g.ndocs[s]
@@ -1187,12 +1243,20 @@ func (g *Gen) bigMergeCase() {
 				xs = append(xs, d)
 			}
 		}
+		if nth == 3 {
+			// 4th big merge of a run: EXACTLY 1024 survivors, every one of them with the term "common"
+			// (1024 is the first cardinality that takes two chunks in the cardinality-dependent mode)
+			xs = []int{5, 100, 333}
+		}
 		d := "nil"
 		if len(xs) > 0 {
 			d = intList(xs)
 		}
 		drops = append(drops, d)
 		total += nd - len(xs)
+	}
+	if nth == 3 {
+		g.st(fmt.Sprintf("bigmerge.survivors%d", total))
 	}
 	f := g.fresh("f")
 	g.emit("merge %s segs=%s drops=%s", f, strList(segs), strings.Join(drops, "|"))
@@ -1228,7 +1292,7 @@ func (g *Gen) genMerge(prop string, n int) error {
 	}
 	for i := 0; i < n; i++ {
 		g.emit("note case %d", i)
-		if prop == "C06" && i%107 == 53 {
+		if prop == "C06" && i%80 == 53 {
 			g.bigMergeCase()
 			continue
 		}
@@ -1247,6 +1311,11 @@ func (g *Gen) genMerge(prop string, n int) error {
 		}
 		if prop == "C05" && i%211 == 7 {
 			g.manySurvivorsCase()
+			g.st("case")
+			continue
+		}
+		if prop == "C05" && i%60 == 17 {
+			g.distinctMergesAtOnce()
 			g.st("case")
 			continue
 		}
@@ -1582,6 +1651,24 @@ func (g *Gen) genC08(n int) error {
 			cfg.noLocs = 0.7
 			b := g.randBatch(g.fresh("b"), cfg)
 			g.emitBatch(b)
+			if i%5 == 2 {
+				// the application's field validator rejects this very batch first (nothing is built); the
+				// retry - the same documents, validator gone - is a build like any other
+				rej := ""
+				for _, d := range b.Docs {
+					for _, f := range d.Fields {
+						if f.Kind == "fld" && f.Name != "_id" {
+							rej = f.Name
+						}
+					}
+				}
+				if rej != "" {
+					g.emit("validator reject:%s", rej)
+					g.emit("build %s %s", g.fresh("x"), b.Name)
+					g.emit("validator none")
+					g.st("rejected-then-retry")
+				}
+			}
 			s := g.fresh("s")
 			g.emit("build %s %s", s, b.Name)
 			g.newBuilt(s, b)
@@ -1994,9 +2081,20 @@ func (g *Gen) sparseDvMergeCase() {
 	s2 := g.fresh("s")
 	g.emit("build %s %s", s2, b2.Name)
 	g.newBuilt(s2, b2)
+	for _, d := range []int{0, 9, 10, 1500, 2059, 2060, nd - 1} {
+		g.emit("q dv %s - fields=tag doc=%d", s, d)
+	}
+	if g.dumpfiles {
+		fp := g.fresh("f")
+		g.emit("persist %s %s", s, fp)
+		g.emit("dumpfile %s", fp)
+	}
 	f := g.fresh("f")
 	g.emit("merge %s segs=%s,%s drops=3|nil", f, s, s2)
 	g.emit("footer %s", f)
+	if g.dumpfiles {
+		g.emit("dumpfile %s", f)
+	}
 	m := g.fresh("m")
 	g.emit("open %s %s", m, f)
 	g.emit("q count %s", m)
@@ -2013,4 +2111,41 @@ func (g *Gen) sparseDvMergeCase() {
 	}
 	g.emit("close %s", m)
 	g.st("sparsedv")
+}
+
+// distinctMergesAtOnce: several UNRELATED merges (different inputs, different outputs, all on the
+// re-encoding path because every one of them has deletions) in flight at the same time; each was run
+// alone first, and every concurrent run must reproduce the content digest of that run.
+func (g *Gen) distinctMergesAtOnce() {
+	g.setMode()
+	var segs []string
+	for k := 0; k < 5; k++ {
+		cfg := g.defaultCfg()
+		cfg.minDocs, cfg.maxDocs = 25, 40
+		b := g.randBatch(g.fresh("b"), cfg)
+		// stored values with array positions of every size, different in every segment
+		for d := range b.Docs {
+			b.Docs[d].Fields = append(b.Docs[d].Fields, FieldSpec{Kind: "fld", Name: "arr", Typ: 't', Stored: true, Len: 0,
+				Val: []byte(fmt.Sprintf("v%d-%d", k, d)), AP: []uint64{uint64(k*1000 + d), uint64(1)<<uint(7*(k+1)) + uint64(d), uint64(d)}})
+		}
+		g.emitBatch(b)
+		s := g.fresh("s")
+		g.emit("build %s %s", s, b.Name)
+		g.newBuilt(s, b)
+		segs = append(segs, s)
+	}
+	var cmds []string
+	for k := 0; k < 5; k++ {
+		a, c := segs[k], segs[(k+1)%5]
+		cmds = append(cmds, fmt.Sprintf("merge %s segs=%s,%s drops=%d|%d,%d digest=1", g.fresh("f"), a, c, k, k+1, k+7))
+	}
+	for _, c := range cmds {
+		g.emit("%s", c)
+	}
+	g.emit("par %d rounds=4", 5)
+	for _, c := range cmds {
+		g.emit("%s", c)
+	}
+	g.emit("endpar")
+	g.st("merges.distinctatonce")
 }
